@@ -1,6 +1,7 @@
 import GqlVerif.Base.Json
 import Driver.C16
 import Driver.C05
+import Driver.C06
 open GqlVerif GqlVerif.Driver
 
 /-- dispatch one request; unknown op → `unsupported` -/
@@ -8,6 +9,7 @@ def dispatch (op : String) (args : Json) : Option Json :=
   match op with
   | "ping" => some (.obj [("pong", .bool true)])
   | "c16.ttl" => some (c16ttl args)
+  | "c06.validate" => some (c06validate args)
   | "c05.lex" => some (c05lex args)
   | "c05.limits" => some (c05limits args)
   | _ => none
